@@ -5,7 +5,7 @@ TUS = ['c06.cc'] + T1[1:] + ['features/subducting_plate', 'features/fault', 'obj
 ST = ['distance_point_from_curved_planes replaced by a stub returning an arbitrary result (section/segment indices in range, fractions in [0,1])', 'segment models are stubs returning uninterpreted functions of the incoming value and recording what they receive',
       'feature object built in raw storage; stored maxima dominate the segment tables and the bounding box is the coordinate box extended by max thickness + max total length (the invariant parse_entries establishes)']
 def ob(id, entry, cases, expect, bounds, **kw):
-    d = dict(id=id, harness='c06.cc', entry=entry, mode='real', cases=cases, expect=expect, bounds=bounds, tus=TUS, stubs=ST, native=False,
+    d = dict(id=id, harness='c06.cc', entry=entry, mode='real', cases=cases, expect=expect, bounds=bounds, tus=TUS, stubs=ST, native=True,
              assumes=['exact-real reading', 'non-negative lengths/thickness/top truncation (schema)', 'Cartesian'], outside=['the geometry of the kernel itself (Newton/Bezier search, trigonometry): not decidable here, DESIGN.md 4/C06', 'quaternion slerp of grain rotations', 'parse-time computation of the culling bounds', 'spherical buffer'])
     d.update(kw); return d
 MEM = ['tag is own index or untouched', 'nothing outside the requested slots is written', 'outside [min depth, max depth] the feature has no effect',
